@@ -89,7 +89,7 @@ class Program:
         for rel, sections in self.files.items():
             p = os.path.join(d, rel)
             os.makedirs(os.path.dirname(p), exist_ok=True)
-            with open(p, "w") as f:
+            with open(p, "w", encoding="utf-8") as f:
                 f.write(render_file(sections) if isinstance(sections, dict) else sections)
         return os.path.join(d, self.root)
 
